@@ -193,19 +193,22 @@ WriteBase(ps) ==
        /\ pending' = rows
   /\ UNCHANGED <<implP, implD, devHit, hist>>
 
-Singles(st, recs) == {d \in Deviations : FireOn(st, base, recs, Deviations \ {d}) # FireOn(st, base, recs, Deviations)}
-Hits(st, recs) == IF FireOn(st, base, recs, {}) = FireOn(st, base, recs, Deviations) THEN {}
-                  ELSE IF Singles(st, recs) # {} THEN Singles(st, recs) ELSE Deviations
+Singles(st, recs, D) == {d \in D : FireOn(st, base, recs, D \ {d}) # FireOn(st, base, recs, D)}
+Hits(st, recs, D) == IF FireOn(st, base, recs, {}) = FireOn(st, base, recs, D) THEN {}
+                     ELSE IF Singles(st, recs, D) # {} THEN Singles(st, recs, D) ELSE D
 
-\* the trigger processes the records
-Fire ==
+\* the trigger processes the records; D = the deviations the tree under test has (a tree in which some of the
+\* listed defects were repaired has a subset of Deviations; the script module AggTrigger_Script quantifies over it)
+FireWith(D) ==
   /\ pending # <<>>
   /\ implP' = FireOn(implP, base, Collapse(pending), {})
-  /\ implD' = FireOn(implD, base, Collapse(pending), Deviations)
-  /\ devHit' = devHit \cup Hits(implD, Collapse(pending))
+  /\ implD' = FireOn(implD, base, Collapse(pending), D)
+  /\ devHit' = devHit \cup Hits(implD, Collapse(pending), D)
   /\ pending' = <<>>
   /\ hist' = Append(hist, [rows |-> pending, recs |-> Collapse(pending), expect |-> Expected(base), known |-> implD'.dest, hit |-> devHit'])
   /\ UNCHANGED base
+
+Fire == FireWith(Deviations)
 
 Next == Fire \/ \E ps \in Requests : WriteBase(ps)
 
